@@ -3,6 +3,7 @@ package main
 import (
 	"encoding/base64"
 	"fmt"
+	"io"
 	"math/rand"
 	"net/http"
 	"net/url"
@@ -283,6 +284,48 @@ func streamC13(env *runEnv) {
 			env.emit("oidc", "cookie", spec, obs)
 		}
 		g.stop()
+	}
+	// OpenID stacked with a header-based mechanism: a gateway request that authenticates with a password does
+	// not log the browser session in (only the callback does), whichever store keeps the sessions
+	for vi, store := range []string{"file", "cookie"} {
+		dir := filepath.Join(env.workdir, fmt.Sprintf("oidc-stacked-%d", vi))
+		mkdirAll(dir)
+		sock := filepath.Join(dir, "a.sock")
+		c := gwConfig{authSet: true, auth: []string{"openid", "local"}, hosts: []string{"10.9.8.7:3389"}, sessionStore: store,
+			providerURL: idp.srv.URL, clientID: idp.clientID, authSocket: sock}
+		c.certFile, c.keyFile = selfSigned(dir)
+		fa := newFakeAuth(sock, map[string]string{"bob": "secret"})
+		yaml, ev := c.render("file")
+		g, ok := startGateway(dir, yaml, ev, true)
+		if !ok {
+			panic("C13: stacked gateway did not start: " + g.logs())
+		}
+		b := newBrowser()
+		verdict := "exact"
+		step := func(what string) {
+			resp, _, err := b.get(g.base() + "/connect")
+			if err != nil {
+				verdict = what + ":no-response"
+			} else if resp.StatusCode != 302 || !strings.HasPrefix(resp.Header.Get("Location"), idp.srv.URL) {
+				verdict = fmt.Sprintf("%s:connect-status-%d", what, resp.StatusCode)
+			}
+		}
+		step("before")
+		for _, pw := range []string{"secret", "wrong", "secret"} {
+			req, _ := http.NewRequest("GET", g.base()+"/remoteDesktopGateway/", nil)
+			req.SetBasicAuth("bob", pw)
+			if resp, err := b.c.Do(req); err == nil {
+				io.Copy(io.Discard, resp.Body)
+				resp.Body.Close()
+			}
+			if verdict == "exact" {
+				step("after-basic-" + pw)
+			}
+		}
+		env.count("c13.stacked." + store)
+		env.emit("exact", "connect-after-password-authenticated-gateway-requests-still-goes-to-the-identity-provider-"+store, verdict)
+		g.stop()
+		fa.stop()
 	}
 	// identity contents restored unchanged (gob round trip through Marshal/Unmarshal)
 	ni := 200
